@@ -100,23 +100,7 @@ def compare(ops, sut, refs):
 # ----------------------------------------------------------------------------- generation
 
 def cicje_rule(g):
-    rng = g.rng
-    bools = [i for i in sorted(g.leafb) if g.leafb[i] == (0, 1)]
-    if len(bools) < 3:
-        return None
-    def comps(n):
-        return [{"id": i} for i in rng.sample(bools, min(n, len(bools)))]
-    data = {"consequence": {"ruleType": rng.choice(["REQUIRES_ALL", "REQUIRES_ANY", "ONE_OR_NONE", "FORBIDS_ALL",
-                                                     "REQUIRES_EXCLUSIVELY"]),
-                            "components": comps(rng.randint(1, 3))}}
-    if rng.random() < 0.8:
-        subs = []
-        for _ in range(rng.randint(1, 2)):
-            subs.append({"relation": rng.choice(["ALL", "ANY"]), "components": comps(rng.randint(1, 2))})
-        data["condition"] = {"relation": rng.choice(["ALL", "ANY"]), "subConditions": subs}
-    if rng.random() < 0.5:
-        data["id"] = rng.choice("STUVW")
-    return ["cicJE", data]
+    return g.cicje()
 
 
 def rule_for(g, h, used):
